@@ -306,6 +306,11 @@ func genC13Syntax(t *rapid.T, cfg *core.Config) *core.Case {
 	for _, tk := range p.Tokens() {
 		toks = append(toks, tk.Text)
 	}
+	if rapid.IntRange(0, 3).Draw(t, "notin") == 0 {
+		// `not` followed by an identifier that begins like the second word of `not in`: the lexer looks ahead for
+		// ` in` after `not` and has to rewind; positions of everything after it on the line depend on that
+		toks = append([]string{"not", rapid.SampledFrom([]string{"inside", "in_x", "index", "int8"}).Draw(t, "inword"), "and"}, toks...)
+	}
 	fault := rapid.SampledFrom([]string{"stray-operator", "stray-operator", "extra-operand", "extra-operand", "extra-closing-parenthesis", "illegal-character"}).Draw(t, "fault")
 	at := -1 // index in the new token list of the offending token
 	var detail string
